@@ -78,6 +78,25 @@ impl Prop for C04 {
                         if internal_names && sig.ends_with(":assignment-names") {
                             sig.push_str(":user-variable-with-solver-internal-prefix");
                         }
+                        // the recorded defects of the two dependencies on models whose optimal face is
+                        // unbounded (or that are unbounded with a free variable): microlp answers with NaN
+                        // values, Clarabel with a far point whose residual is relative to its norm
+                        let truth = crate::oracle::rat::solve_milp(&case.to_problem());
+                        let microlp = !matches!(w, crate::props::solvers::Which::Clarabel | crate::props::solvers::Which::Tableau);
+                        if microlp && crate::props::c05::hang_prone(case, &truth) {
+                            sig.push_str(match truth {
+                                crate::oracle::rat::Verdict::Unbounded => ":mixed-integer+unbounded+free-var",
+                                _ => ":unbounded-optimal-face+free-var",
+                            });
+                        } else if matches!(w, crate::props::solvers::Which::Clarabel) {
+                            match &truth {
+                                crate::oracle::rat::Verdict::Optimal { value, .. } if crate::props::c05::optimal_face_unbounded(case, value) => sig.push_str(":unbounded-optimal-face"),
+                                // an unbounded model answered with a far point (C05's recorded finding seen
+                                // through the certificate)
+                                crate::oracle::rat::Verdict::Unbounded => sig.push_str(":model-is-unbounded"),
+                                _ => {}
+                            }
+                        }
                         fails.push((sig, detail));
                     }
                 }
